@@ -289,7 +289,7 @@ var $newType = (size, kind, string, named, pkg, exported, constructor) => {
                 typ.ptr.nil.$val = typ.ptr.nil;
                 /* methods for embedded fields */
                 $addMethodSynthesizer(() => {
-                    var synthesizeMethod = (target, m, f, ptrRecv) => {
+                    var synthesizeMethod = (target, m, f, ptrRecv, byValue) => {
                         if (target.prototype[m.prop] !== undefined) { return; }
                         target.prototype[m.prop] = function(...args) {
                             var self = this.$val;
@@ -307,9 +307,9 @@ var $newType = (size, kind, string, named, pkg, exported, constructor) => {
                             if (f.typ === $jsObjectPtr) {
                                 v = new $jsObjectPtr(v);
                             }
-                            if (!ptrRecv && f.typ.kind === $kindStruct) {
-                                /* A value-receiver method works on a copy of the embedded struct. */
-                                v = $clone(v, f.typ);
+                            if (byValue) {
+                                /* A method in the value method set of the embedded struct works on a copy of it. */
+                                v = $clone(v, f.typ.kind === $kindPtr ? f.typ.elem : f.typ);
                             }
                             if (v.$val === undefined) {
                                 v = new f.typ(v);
@@ -319,9 +319,14 @@ var $newType = (size, kind, string, named, pkg, exported, constructor) => {
                     };
                     fields.forEach(f => {
                         if (f.embedded) {
+                            var elem = f.typ.kind === $kindPtr ? f.typ.elem : f.typ;
+                            var valueSet = {};
+                            if (elem.kind === $kindStruct) {
+                                $methodSet(elem).forEach(m => { valueSet[m.prop] = true; });
+                            }
                             $methodSet(f.typ).forEach(m => {
-                                synthesizeMethod(typ, m, f);
-                                synthesizeMethod(typ.ptr, m, f);
+                                synthesizeMethod(typ, m, f, false, valueSet[m.prop] === true);
+                                synthesizeMethod(typ.ptr, m, f, false, valueSet[m.prop] === true);
                             });
                             $methodSet($ptrType(f.typ)).forEach(m => {
                                 synthesizeMethod(typ.ptr, m, f, true);
@@ -461,15 +466,16 @@ var $methodSet = typ => {
             seen[e.typ.id] = true;
 
             if (e.typ.named) {
-                mset = mset.concat(e.typ.methods);
-                if (e.indirect) {
-                    mset = mset.concat($ptrType(e.typ).methods);
-                }
+                e.typ.methods.forEach(m => { declare(key(m.name, m.pkg), m); });
+                $ptrType(e.typ).methods.forEach(m => { declare(key(m.name, m.pkg), e.indirect ? m : null); });
             }
 
             switch (e.typ.kind) {
                 case $kindStruct:
                     e.typ.fields.forEach(f => {
+                        if (f.name !== "_") {
+                            declare(key(f.name, f.exported ? "" : e.typ.pkgPath), null);
+                        }
                         if (f.embedded) {
                             var fTyp = f.typ;
                             var fIsPtr = (fTyp.kind === $kindPtr);
